@@ -227,3 +227,17 @@ def c14_7(ctx, r):
                 r.check(not bad, f"{fn.short}: the submitter round does not depend on the canceled flag", key_of(fn, "round skipped for a canceled submission"), s2.loc,
                         f"the submitter round is reached only under {bad}: after a cancel no round ever collects the results written before the cancel, results.json (with the never-run jobs as missing) "
                         "is never written and the submission stays incomplete for ever", "Results recorded before the cancel are kept and jobs that never ran are reported missing")
+
+
+@rule(P, "C14.8", "T6", "a canceled submission is completed only through a submitter round (which collects the results recorded before the cancel)", min_obligations=4)
+def c14_8(ctx, r):
+    from .c03 import c03_2
+
+    c03_2(ctx, r)
+
+
+@rule(P, "C14.9", "T8", "jobs that never ran are reported missing also when no result exists at all", min_obligations=4)
+def c14_9(ctx, r):
+    from .c03 import c03_3
+
+    c03_3(ctx, r)
